@@ -5,7 +5,7 @@
    modelled (stage 2): they are executed as write->read->equal oracles on the Go side only, as is the
    string-vs-[]byte variant clause (in the model StringWrite and StringWriteBytes are one function). *)
 From Coq Require Import ZArith List Bool.
-From SH Require Import Common.Wrap TL.Model TL.Proofs TL.Schema TL.Corr Gen.TLSchema.
+From SH Require Import Common.Wrap TL.Model TL.Proofs TL.Model2 TL.Proofs2 TL.Schema TL.Corr Gen.TLSchema.
 Import ListNotations.
 Open Scope Z_scope.
 
@@ -26,6 +26,25 @@ Theorem C14_tl1_roundtrip_every_schema_type :
   read [] d (write [] d v ++ rest) = Some (v, rest) /\
   read [] (DBoxed tag d) (write [] (DBoxed tag d) v ++ rest) = Some (v, rest).
 Proof. exact schema_roundtrip. Qed.
+
+(* "…writing a value in … TL2 … form and reading it back yields an equal value": for every description of the
+   TL2 fragment (everything but tuples, boxed types, unions with fields and float/double as a plain struct
+   field — none of which has generated TL2 code in the tree), every value of the Go types (conditional fields
+   present or absent independently of the mask value, as the Go structs allow; vectors obeying the reader's
+   count check; dictionaries with ascending keys) and every trailing byte string *)
+Theorem C14_tl2_roundtrip :
+  forall d v rest, tl2_ok d = true -> wf2 d v = true -> dec2 d (enc2 d v ++ rest) = Some (v, rest).
+Proof. exact tl2_roundtrip. Qed.
+
+(* …instantiated to every schema item whose generated code has TL2 methods (all of statshouseApi and `true`) *)
+Theorem C14_tl2_roundtrip_every_tl2_schema_type :
+  forall i, In i tl2_items ->
+  forall v rest, wf2 (tl2_desc i) v = true -> dec2 (tl2_desc i) (enc2 (tl2_desc i) v ++ rest) = Some (v, rest).
+Proof. exact schema_tl2_roundtrip. Qed.
+
+Theorem C14_tl2_schema_in_fragment :
+  forallb (fun i => tl2_ok (tl2_desc i) && (Nat.ltb i (length schema))) tl2_items = true /\ (20 <? zlen tl2_items) = true.
+Proof. exact (conj schema_tl2_ok schema_tl2_nonempty). Qed.
 
 (* the schema the previous theorem ranges over is the generated one: tags are 32-bit, union and Bool
    constructor tags pairwise different *)
@@ -93,6 +112,23 @@ Example C14_nonvacuous_schema :
      [132;216;37;51;64;3;217;248;0;0;0;0;2;0;0;0;0;0;0;0;10;99;99;32;89;97;89;45;46;46;98;0;5;89;98;48;49;90;0;0;1;189;0;0] with
      | Some (v, []) => wf [] (DBoxed (fst e) (snd e)) v | _ => false end) schema = true.
 Proof. vm_compute. reflexivity. Qed.
+(* TL2: a query-like constructor with more than 7 fields (two presence blocks), an enumeration, a dictionary,
+   a conditional string, a conditional `true` in the second block; the value has defaults in between *)
+Definition ex_desc2 : desc :=
+  DStruct [(None, DPrim PNat); (None, DPrim PInt); (None, DPrim PString); (None, DPrim PLong);
+           (None, DUnion [(1, DStruct []); (2, DStruct []); (3, DStruct [])]);
+           (None, DVector false (DPrim PString)); (None, DBool 5 6);
+           (None, DVector true (DStruct [(None, DPrim PString); (None, DPrim PString)]));
+           (Some (NVar 0%nat, 0), DPrim PString); (Some (NVar 0%nat, 2), DStruct [])].
+Definition ex_value2 : value :=
+  VList [VInt 0; VInt (-5); VStr [104; 105]; VInt 0; VCtor 2 (VList []); VList [VStr []; VStr [120]]; VBool true;
+         VList [VList [VStr [97]; VStr []]]; VOpt (Some (VStr [])); VOpt (Some (VList []))].
+Example C14_nonvacuous_tl2 :
+  tl2_ok ex_desc2 = true /\ wf2 ex_desc2 ex_value2 = true /\
+  enc2 ex_desc2 ex_value2 = [27; 212; 251;255;255;255; 2;104;105; 2;1;2; 5;2;0;1;120; 1; 7; 5;1;3;2;1;97; 0] /\
+  dec2 ex_desc2 (enc2 ex_desc2 ex_value2 ++ [9]) = Some (ex_value2, [9]) /\
+  enc2 ex_desc2 (default ex_desc2) = [0].
+Proof. vm_compute. auto 10. Qed.
 Example C14_nonvacuous_frames :
   let lz4c := fun _ : bytes => [31; 7] in
   compress_and_frame lz4c [7; 7; 7; 7; 7] = [5; 0; 0; 0; 31; 7] /\
